@@ -204,6 +204,75 @@ theorem parseValidators_some {extra : Bytes} {l : List Bytes} (h : parseValidato
   unfold addressLength at *
   refine ⟨by omega, by omega, hlen, by omega⟩
 
+/-- the validator area of an extra-data field: the bytes between the 32-byte vanity and the 65-byte seal -/
+def validatorArea (extra : Bytes) : Bytes := (extra.drop extraVanity).take (extra.length - extraVanity - extraSeal)
+
+theorem chunks_flatten : ∀ (k : Nat) (b : Bytes), b.length = k * addressLength → (chunks k b).flatten = b
+  | 0, b, h => by
+    have : b = [] := List.eq_nil_of_length_eq_zero (by omega)
+    simp [chunks, this]
+  | k + 1, b, h => by
+    simp only [chunks, List.flatten_cons]
+    rw [chunks_flatten k (b.drop addressLength) (by simp only [List.length_drop]; unfold addressLength at *; omega)]
+    exact List.take_append_drop addressLength b
+
+theorem chunks_entry_length : ∀ (k : Nat) (b : Bytes), b.length = k * addressLength →
+    ∀ e ∈ chunks k b, e.length = addressLength
+  | 0, _, _ => by intro e he; simp [chunks] at he
+  | k + 1, b, h => by
+    intro e he
+    simp only [chunks, List.mem_cons] at he
+    rcases he with rfl | he
+    · simp only [List.length_take]; unfold addressLength at *; omega
+    · exact chunks_entry_length k (b.drop addressLength)
+        (by simp only [List.length_drop]; unfold addressLength at *; omega) e he
+
+theorem chunks_getElem : ∀ (k : Nat) (b : Bytes) (i : Nat), i < k →
+    (chunks k b)[i]? = some ((b.drop (addressLength * i)).take addressLength)
+  | 0, _, _, h => by omega
+  | k + 1, b, 0, _ => by simp [chunks]
+  | k + 1, b, i + 1, h => by
+    simp only [chunks, List.getElem?_cons_succ]
+    rw [chunks_getElem k (b.drop addressLength) i (by omega)]
+    simp only [List.drop_drop]
+    congr 3
+    unfold addressLength; omega
+
+/-- **`ParseValidators` is the plain chunking of the validator area**: it returns EVERY 20-byte entry, in order —
+entry `i` is bytes `[20i, 20i+20)` of the area, whatever it contains (the zero address, 0xff…ff, a duplicate, the
+coinbase, any order); the number of entries is `|area| / 20` and the concatenation of the entries is the area
+(total-length preserving), so two headers that parse to the same list carry the same area (injective). -/
+theorem parseValidators_chunking {extra : Bytes} {l : List Bytes} (h : parseValidators extra = some l) :
+    l.length = (validatorArea extra).length / addressLength
+    ∧ l.flatten = validatorArea extra
+    ∧ (∀ e ∈ l, e.length = addressLength)
+    ∧ (∀ i, i < l.length → l[i]? = some (((validatorArea extra).drop (addressLength * i)).take addressLength)) := by
+  unfold parseValidators at h
+  simp only at h
+  split at h; · cases h
+  split at h; · cases h
+  rename_i h1 h2
+  simp only [Option.some.injEq] at h
+  have hlen : (validatorArea extra).length = (validatorArea extra).length / addressLength * addressLength := by
+    have : (validatorArea extra).length % addressLength = 0 := by
+      unfold validatorArea; exact Classical.byContradiction (fun hx => h1 hx)
+    have := Nat.div_add_mod (validatorArea extra).length addressLength
+    rw [Nat.mul_comm] at this; omega
+  subst h
+  refine ⟨length_chunks _ _, chunks_flatten _ _ hlen, chunks_entry_length _ _ hlen, ?_⟩
+  intro i hi
+  rw [length_chunks] at hi
+  exact chunks_getElem _ _ i hi
+
+theorem parseValidators_injective {e1 e2 : Bytes} {l : List Bytes}
+    (h1 : parseValidators e1 = some l) (h2 : parseValidators e2 = some l) : validatorArea e1 = validatorArea e2 := by
+  rw [← (parseValidators_chunking h1).2.1, ← (parseValidators_chunking h2).2.1]
+
+/-- zero addresses, all-ones addresses and duplicates are entries like any other -/
+example : parseValidators (List.replicate 32 0 ++ (List.replicate 20 0 ++ List.replicate 20 255 ++ List.replicate 20 7
+    ++ List.replicate 20 7) ++ List.replicate 65 0)
+    = some [List.replicate 20 0, List.replicate 20 255, List.replicate 20 7, List.replicate 20 7] := by decide +kernel
+
 theorem parseValidators_ne_nil {extra : Bytes} {l : List Bytes} (h : parseValidators extra = some l) : l ≠ [] := by
   have := (parseValidators_some h).2.2.2
   intro hn; rw [hn] at this; simp at this
